@@ -248,6 +248,28 @@ def check_reversal(idx, run):
               f"step gives `do i = hi, lo, -12` without the "
               f"hi - MOD(hi - lo, 12) start, so the adjoint visits other "
               f"iterations than the tangent-linear loop", loc(mod, loop))
+    # the MOD offset is assembled as text: the subtracted lower bound must
+    # be protected when it is an expression
+    fstr = [j for j in ast.walk(loop) if isinstance(j, ast.JoinedStr) and
+            "mod(" in ast.unparse(j).lower()]
+    okp = False
+    if fstr:
+        ftxt = ast.unparse(fstr[0])
+        if "-({lo_str})" in ftxt.replace(" ", ""):
+            okp = True
+        else:
+            okp = any(isinstance(st, ast.If) and "start_expr" in
+                      ast.unparse(st.test) and any(
+                          isinstance(a, ast.Assign) and
+                          ast.unparse(a.targets[0]) == "lo_str" and
+                          "(" in ast.unparse(a.value) for a in st.body)
+                      for st in ast.walk(loop))
+    run.check("C19.R2", okp, "AdjointVisitor.loop_node",
+              "a compound lower bound is parenthesised in hi - lo",
+              "the lower bound is pasted into 'mod(hi-lo,step)' as text "
+              "without parentheses: `do i = m1+1, n, 3` gives "
+              "MOD(n - m1 + 1, 3) instead of MOD(n - (m1 + 1), 3)",
+              loc(mod, loop))
     run.check("C19.R2", "self._visit(node.children[3])" in ltxt,
               "AdjointVisitor.loop_node", "the loop body is transposed",
               "the body of an active loop is not transposed", loc(mod, loop))
